@@ -292,6 +292,30 @@ func elemOfLoop(t *Term, lp *loopInfo) bool {
 				found = true
 			}
 		}
+		// a struct element copied into a cell (`for _, e := range xs` with e addressed field by field): the cell's
+		// only stores are loads of an element of the ranged collection
+		if al, isAl := x.V.(*ssa.Alloc); x.Op == "alloc" && isAl && lp.over != nil && al.Referrers() != nil {
+			n, good := 0, true
+			for _, r := range *al.Referrers() {
+				st, isSt := r.(*ssa.Store)
+				if !isSt || st.Addr != ssa.Value(al) {
+					continue
+				}
+				n++
+				ld, isLd := st.Val.(*ssa.UnOp)
+				if !isLd {
+					good = false
+					continue
+				}
+				ia, isIA := ld.X.(*ssa.IndexAddr)
+				if !isIA || ia.X != lp.over {
+					good = false
+				}
+			}
+			if n > 0 && good {
+				found = true
+			}
+		}
 		return !found
 	})
 	return found
